@@ -178,7 +178,16 @@ func (c *conRun) execOne(store *gkvlite.Store, op ConOp, ev *Ev) {
 		})
 	case "allocstats":
 		// read-only, package-wide: takes all three free-list locks
-		c.call(ev, func() { _ = coll().AllocStats() })
+		c.call(ev, func() {
+			if op.N%2 == 1 {
+				// read-only as well, and it pins a version
+				if _, err := coll().MarshalJSON(); err != nil {
+					ev.Err = err.Error()
+				}
+				return
+			}
+			_ = coll().AllocStats()
+		})
 	case "flush":
 		c.call(ev, func() {
 			if err := store.Flush(); err != nil {
